@@ -289,9 +289,13 @@ Qed.
 Lemma Inv2_reach : forall w c sched, Inv2 (run false sched (init w c)).
 Proof. intros. apply Inv12_run. apply Inv_init. apply Inv2_init. Qed.
 
+(** labels of the main thread inside checkPopData and of the workers *)
+Definition inner (l : label) : bool :=
+  match l with LPost | LPop _ | LSteal _ | LRun _ | LFulfil _ | LWait => true | _ => false end.
+
 (** no deadlock: while the pool runs and main is inside checkPopData, some step is enabled *)
 Lemma progress_state : forall s, Inv s -> Inv2 s -> aborted s = false -> pst s = PRun ->
-  quiescent_main (main s) = false -> exists l s', step false l s = Some s'.
+  quiescent_main (main s) = false -> exists l s', inner l = true /\ step false l s = Some s'.
 Proof.
   intros s I [J1 J2] AB P Q. unfold step. rewrite AB.
   pose proof (i_main _ I) as M. unfold main_ok, main_ok_m in M.
@@ -336,7 +340,7 @@ Qed.
 Lemma no_deadlock_lemma : forall w c sched,
   let s := run false sched (init w c) in
   aborted s = false -> pst s = PRun -> quiescent_main (main s) = false ->
-  exists l s', step false l s = Some s'.
+  exists l s', inner l = true /\ step false l s = Some s'.
 Proof. intros. apply progress_state; auto. apply Inv_reach. apply Inv2_reach. Qed.
 
 (** stop() and start(): once no call is in progress, every join succeeds without waiting for a
